@@ -289,7 +289,7 @@ theorem getOffValue_defined (r : Reason) {i : Int} (h : f.offVariation = some i)
 theorem evalFlag_top (env : Env) (f : Flag) :
     Spec.evalFlag (segFuel env.store) (flagFuel env.store) env f [] =
       Spec.evalBody
-        (Spec.evalFlag (segFuel env.store) (distinctCount (env.store.flags.map (·.key)) + 1) env)
+        (Spec.evalFlag (segFuel env.store) (distinctCount (env.store.flags.map (·.2.key)) + 1) env)
         (Spec.segContains (segFuel env.store) env) env f [] := rfl
 
 /-- Targeting off, at the entry point. -/
@@ -334,7 +334,7 @@ section Examples
 
 /-- A user context `alice`; the store holds an off flag `p` and an on flag `q`. -/
 def exEnv : Env :=
-  { opts := {}, store := { flags := [{ key := "p", on := false }, { key := "q", on := true }] },
+  { opts := {}, store := Store.ofLists [{ key := "p", on := false }, { key := "q", on := true }] [],
     bs := none, ctx := .single { kind := "user", key := "alice" }, rx := fun _ _ => none }
 
 /-- A clause about kind `org`, which the context lacks: it does not match. -/
@@ -404,9 +404,9 @@ example (seg : Spec.SegRec) :
   rw [prereq_failed_first (p := ⟨"p", 0⟩) rfl [⟨"q", 0⟩] [⟨"zzz", 0⟩] rfl
     (by
       intro q hq; rw [List.mem_singleton.1 hq]
-      exact ⟨{ key := "q", on := true }, _, by simp [exEnv, Store.findFlag],
+      exact ⟨{ key := "q", on := true }, _, by simp [exEnv, Store.findFlag, Store.ofLists],
         by simp [exFlag], rfl, rfl, rfl⟩)
-    (Or.inr ⟨{ key := "p", on := false }, _, by simp [exEnv, Store.findFlag],
+    (Or.inr ⟨{ key := "p", on := false }, _, by simp [exEnv, Store.findFlag, Store.ofLists],
       by simp [exFlag], rfl, by simp⟩),
     getOffValue_undefined _ rfl]
 
